@@ -2,8 +2,8 @@ SPECIFICATION Spec
 CONSTANTS
   Creators = {"g1", "g2"}
   MaxPkgs = 3
-  ATOMIC = FALSE
-  REGFIRST = TRUE
+  ATOMIC = TRUE
+  REGFIRST = FALSE
   PTRACK = TRUE
 INVARIANTS C12_DistinctIds C12_SetupSucceedsOnAck C12_RoutedToHeaderChannel C12_InOrder C12_NoCrossTalk C12_NoReuseAfterClose C12_AckReachesItsChannel
 CHECK_DEADLOCK FALSE
